@@ -64,6 +64,14 @@ pub fn replay(args: &[String]) {
                 s.eval(None);
             }
         }
+        // the largest permitted increment, natively (2^31-1 is not a multiple of 2^(32-W))
+        for base in [a, b] {
+            match guarded(|| Serial(base).add(0x7FFF_FFFF)) {
+                Ok(got) if got.0 == base.wrapping_add(0x7FFF_FFFF) && cmp_obs(base, got.0) == Ok("lt") => {}
+                Ok(got) => s.violation("add:max-increment", format!("Serial({base}).add(2^31-1) = {}", got.0), c.clone()),
+                Err(m) => s.violation("add:panic", format!("Serial({base}).add(2^31-1) panicked: {m}"), c.clone()),
+            }
+        }
         if s.samples.len() < 3 && a != b {
             s.sample(json!({"case": c, "a32": a, "b32": b, "impl": cmp_obs(a, b).unwrap_or("panic")}));
         }
@@ -100,13 +108,13 @@ pub fn drive(args: &[String]) {
                 s.eval(Some(&format!("cmp{a}:{b}")));
             }
             1 => {
-                let nn = (b & 0x7FFF_FFFF).max(1);
+                let nn = if rng.chance(1, 8) { 0x7FFF_FFFF } else { (b & 0x7FFF_FFFF).max(1) };
                 match guarded(|| Serial(a).add(nn)) {
                     Ok(r) => {
                         let after = cmp_obs(a, r.0).unwrap_or("panic");
                         t.ev(json!({"ev": "add", "a": halves(a), "n": halves(nn), "res": halves(r.0), "cmp": after}));
                     }
-                    Err(_) => t.ev(json!({"ev": "add", "a": halves(a), "n": halves(nn), "res": "panic", "cmp": "panic"})),
+                    Err(m) => s.violation("add:panic", format!("Serial({a}).add({nn}) panicked: {m}"), json!({"a": a, "n": nn})),
                 }
                 s.eval(Some(&format!("add{a}:{nn}")));
             }
